@@ -94,6 +94,8 @@ class Flow:
 
 
 def check_order_only(rep, w: Walker, pre: str = "", events: List[Event] = None) -> Dict[str, int]:
+    from .common import require_scalar_fragment
+    require_scalar_fragment(w, w.entry.qual)
     fl = Flow(w)
     stats = {"sources": 0, "uses": 0}
     seen = set()
